@@ -74,6 +74,8 @@ def rerun(ids):
         if not os.path.exists(mp):
             continue
         meta = json.load(open(mp))
+        if meta.get("expect") == "quiet" or meta.get("status") in ("superseded", "out-of-scope"):
+            continue
         res = mutate.run_patch(os.path.join(dst, "patch.diff"), meta["property"], seeds=("", "1"))
         meta["check_results"] = res
         meta["caught"] = all(r.get("check_exit") == 1 and r.get("violations", 0) > 0 for r in res)
